@@ -468,7 +468,7 @@ class Engine:
         return SV(ty, ms.constructor(0)(keys, vals))
 
     def map_has(self, m, k):
-        return z3.Contains(self.map_keys(m), z3.Unit(k.t))
+        return z3.Contains(self.map_keys(m), z3.Unit(S.enc(k)))
 
     # ------------------------------------------------------------------ expressions
     def ev(self, node, st):
@@ -612,7 +612,7 @@ class Engine:
             et = vals[0].ty
             for v in vals:
                 self.pack(v)
-            t = z3.Concat(*[z3.Unit(v.t) for v in vals]) if len(vals) > 1 else z3.Unit(vals[0].t)
+            t = z3.Concat(*[z3.Unit(S.enc(v)) for v in vals]) if len(vals) > 1 else z3.Unit(S.enc(vals[0]))
             outs.append((s, SV(SEQ(et), t, const="fresh")))
         return outs
 
@@ -1192,6 +1192,12 @@ class Engine:
             return [(s, mk_bool(False))]
         if k == "enumset":
             return [(s, mk_bool(z3.Or(*[item.t == v for v in cont.items])))]
+        if k == "obj" and not self.spec:
+            r = self.refine_obj(cont, s)
+            if r.ty.kind != "obj":
+                if item.ty.kind == "obj":
+                    item = self.refine_obj(item, s)
+                return self.contains(r, item, s)
         raise Unsupported("'in' on %r" % (cont.ty,))
 
     # -- attribute / subscript
@@ -1270,6 +1276,13 @@ class Engine:
                 return [(s, self.load_field(s, o.t, cls, attr))]
             f = self.table.resolve(cls, attr)
             if f is not None and f.is_property:
+                is_self = "self" in s.env and s.env["self"].t is not None and o.t.eq(s.env["self"].t) and self.self_class
+                if is_self:
+                    f = self.table.resolve(self.self_class, attr) or f
+                elif not self.spec:
+                    from . import calls as _calls
+                    return _calls.dispatch(self, cls, attr, o, s,
+                                           lambda fn, rv, s2: self.call_function(fn, rv, [], {}, s2, recv_static=rv.ty.cls))
                 return self.call_function(f, o, [], {}, s, recv_static=cls)
             ca = self.class_attr(cls, attr)
             if ca is not None:
@@ -1385,13 +1398,13 @@ class Engine:
 
     def seq_elem(self, st, base, j):
         et = base.ty.elem
-        t = z3.simplify(base.t[j])
+        t = z3.simplify(S.dec(et, base.t[j]))
         sv = SV(et, t)
         self.assume_wf_value(st, sv)
         return sv
 
     def map_elem(self, st, base, key):
-        sv = SV(base.ty.elem, z3.simplify(z3.Select(self.map_vals(base), key.t)))
+        sv = SV(base.ty.elem, z3.simplify(z3.Select(self.map_vals(base), S.enc(key))))
         self.assume_wf_value(st, sv)
         return sv
 
@@ -1410,6 +1423,12 @@ class Engine:
 
     def ev_Lambda(self, node, st):
         raise Unsupported("lambda")
+
+    def ev_DictComp(self, node, st):
+        hook = self.reg.specfuns.get("dictcomp_hook")
+        if hook is None:
+            raise Unsupported("dict comprehension")
+        return hook(self, node, st)
 
     def ev_Dict(self, node, st):
         if not node.keys:
